@@ -51,9 +51,15 @@ def gen_case(ctx, i):
     s = int(r.choice([1, 2, 4, 8, 16]))
     hi = 25 if r.random() < 0.1 else 13
     H, W = int(s * r.integers(2, hi)), int(s * r.integers(2, hi))
+    if i % 40 == 9:  # a very tall or very wide frame (beyond 4096 px on one side, a few cells on the other)
+        s = int(r.choice([8, 16]))
+        long_, short_ = int(s * r.integers(4100 // s + 1, 4400 // s)), int(s * r.integers(2, 5))
+        H, W = (long_, short_) if r.random() < 0.5 else (short_, long_)
     sigma = float(np.exp(r.uniform(np.log(0.3), np.log(5.0))))
     n_nodes = int(r.integers(1, 7))
     n_an = int(r.integers(0, 6))
+    if i % 25 == 3 and variant in ("multi", "centroid", "dp_multi", "dp_centroid"):  # a crowded frame: 65-150 animals (not a multiple of a block size)
+        n_an, n_nodes = int(r.integers(65, 151)), int(r.integers(1, 3))
     if variant in ("single", "single4d", "dp_single"):
         n_an = max(n_an, 1)
     nan_class = str(r.choice(["none", "none", "some_nodes", "whole_animal", "only_x_or_y", "all"]))
